@@ -100,7 +100,8 @@ def step_adds_fluxes(S, rep, tier):
     for kind in ("2d", "3d", "passive"):
         cs = sim_configs(kind, tier)
         if tier == "quick" and kind == "3d":
-            cs = [c for c in cs if c["poisson_solver_type"] == "greens_function_convolution"][:6]
+            cs = [c for c in cs if c["poisson_solver_type"] == "greens_function_convolution"][:6] + \
+                [c for c in cs if c["poisson_solver_type"] != "greens_function_convolution"]
         cfgs += cs
     parallel_over(S, rep, "sa.props.c04", "step_config", cfgs)
 
